@@ -72,7 +72,7 @@ def sameThreadOrder (p : Params) (tr : List Obs) : List Viol :=
   if tr.any (fun o => match o with | .call _ _ (.tune _) => true | .call _ _ (.addAll ..) => true | _ => false) then [] else
   -- the harness binds the program's queues itself (one bind call each); a further bind adds a queue
   if (tr.filter (fun o => match o with | .call _ _ .bind => true | _ => false)).length > max p.queues.length 1 then [] else
-  let isPrio := p.queues.head? == some "prio"
+  let isPrio := (p.queues.head?.getD "").endsWith "prio"
   -- (job, thread, call position, return position, priority), accepted submissions only
   let (subs, _) := tr.foldl (fun (acc : List (Nat × Nat × Nat × Nat × Int) × Nat) o =>
     let i := acc.2
